@@ -64,15 +64,21 @@ def recoverA (A : Algebra St E) (fs : Fs E) : St := replay A (fs.mani.durable ++
 inductive Client (E : Type) where
   | edit (e : E)
   | rollover
+  /-- `apply` whose write pushes MANIFEST over the rollover ratio: `_apply` rolls over before it
+      returns, so the acknowledgement comes after the rename -/
+  | editRoll (e : E)
 
 /-- the client's in-memory state is the replay of the edits applied so far -/
 def block (A : Algebra St E) (sofar : List E) : Client E → List (Op E)
   | .edit e => [.append e, .sync, .ack]
   | .rollover => [.linkBackup, .tmpClear, .tmpWrite (A.rollup (replay A sofar)), .tmpSync, .rename]
+  | .editRoll e => [.append e, .sync, .linkBackup, .tmpClear, .tmpWrite (A.rollup (replay A (sofar ++ [e]))),
+                    .tmpSync, .rename, .ack]
 
 def sofarAfter (sofar : List E) : Client E → List E
   | .edit e => sofar ++ [e]
   | .rollover => sofar
+  | .editRoll e => sofar ++ [e]
 
 def opsOf (A : Algebra St E) : List (Client E) → List E → List (Op E)
   | [], _ => []
@@ -82,6 +88,7 @@ def editsOf : List (Client E) → List E
   | [] => []
   | .edit e :: cs => e :: editsOf cs
   | .rollover :: cs => editsOf cs
+  | .editRoll e :: cs => e :: editsOf cs
 
 /-- the directory a crash leaves behind: (a) every completed call persists, (b) bytes written but
     not synced are lost (directory operations persist in both) -/
